@@ -150,11 +150,15 @@ def worker(job):
         check_layer(it, layer, sig, D, N, flags, problems, cfg, kind)
     elif kind == "MaxNormPool":
         N = (2, 4) if D == 2 else (2, 2, 4)
+        if param == 3:
+            N = (3, 6) if D == 2 else (3, 3, 6)
         layer = ml.MaxNormPool(param, True)
         sh = tuple(param if i == 0 else 0 for i in range(D))
         check_layer(it, layer, sig, D, N, flags, problems, cfg, kind, shift=(sh, tuple(1 if i == 0 else 0 for i in range(D))))
     elif kind in ("max_pool", "max_pool_cmp", "average_pool", "unpool"):
         N = (2, 4) if D == 2 else (2, 2, 4)
+        if param == 3 and kind != "unpool":
+            N = (3, 6) if D == 2 else (3, 3, 6)
         if kind == "unpool":
             N = (2, 3) if D == 2 else (2, 2, 3)
         MI = geom.MultiImage
@@ -261,6 +265,11 @@ def run(ctx):
             jobs.append((ctx.repo, "unpool", D, sig, 2))
             if D == 2:
                 jobs.append((ctx.repo, "unpool", D, sig, 3))
+                if sig is pool_sigs[0] or th:
+                    # patch length 3 (odd: the patch has a centre pixel)
+                    jobs.append((ctx.repo, "MaxNormPool", D, sig, 3))
+                    jobs.append((ctx.repo, "average_pool", D, sig, 3))
+                    jobs.append((ctx.repo, "max_pool", D, sig, 3))
         if th:
             # more channels per group, deeper tensor orders for the pooling blocks, D=3 with every pooling signature
             jobs.append((ctx.repo, "GroupNorm", D, (((0, 0), 4), ((1, 0), 4), ((0, 1), 4), ((1, 1), 4)), 4))
